@@ -70,6 +70,11 @@ ALPHABETS = {
     'combining': 'éö',
     'surrogate': 'a\ud800b',
     'mixed': 'a\r \x00\U0001F600\n',
+    # characters that decoders and file layers like to eat: byte-order mark (first!), zero-width / bidi marks,
+    # the replacement character, ^Z, DEL, form feed, escape, backspace
+    'bom': '\ufeffa\ufeff',
+    'marks': '\u200b\u200e\u2060\ufffd\ufffe x',
+    'control': '\x1a\x7f\x0c\x1b\x08z',
 }
 
 
